@@ -303,6 +303,7 @@ RULE = (
     "(min/max x_k s.t. A'x=b', box), BVLS for the best fit, direct substitution for spaced solutions. Non-trivial = boundary target, "
     "or >=2 surplus sources, or spaced solutions requested, or an out-of-gamut target."
     " Also: systems with two proportional sources (exactly singular sub-systems; sub-check proportional_sources), the same system in other physical units (s in {1e-3,1,1e3}, c in {1e-6,1e-3,1,1e3}; answer converted back), whole-number bounds as int64 arrays / lists of ints."
+    " A whole-number problem (rounded capture of a row's interior intensities, K and baseline rounded) is solved with int64 and with float arguments: equal extents, equal to the LP extents."
 )
 
 PROP = Prop(
